@@ -856,7 +856,7 @@ def _emit_family(draw, S, fam, allow_set_broadcast=True, allow_ndim_dot=False, a
         if fam == 'lu':
             return S.try_emit(['lu', a, draw(st.sampled_from([1, 2]))])
         if fam == 'eigh':
-            kind = draw(st.sampled_from(['val', 'val', 'vec', 'fun'] if raw_vectors else ['val', 'fun', 'val']))
+            kind = draw(st.sampled_from(['val', 'val', 'vec', 'fun'] if raw_vectors else ['fun', 'val', 'fun']))
             if kind == 'fun':
                 return S.try_emit(['eigh_fun', a])
             return S.try_emit(['eigh_sym', a, 0 if kind == 'val' else 1])
